@@ -1805,6 +1805,18 @@ fn many_class_sig_ops(out: &mut Out, n: usize) {
     out.count("many_class_signature_runs");
 }
 
+fn leb_push(out: &mut Vec<u8>, mut n: usize) {
+    loop {
+        let b = (n & 0x7f) as u8;
+        n >>= 7;
+        if n == 0 {
+            out.push(b);
+            break;
+        }
+        out.push(b | 0x80);
+    }
+}
+
 /// `LIB` operations: the std / leb128 functions mirrored by the Lean model, compared directly.
 /// `which`: "text" (utf8, trim, lines, num, dec, split), "order" (cmp, bs, leb).
 pub fn lib_ops(out: &mut Out, rng: &mut Rng, th: bool, which: &str) {
@@ -1951,6 +1963,40 @@ pub fn lib_ops(out: &mut Out, rng: &mut Rng, th: bool, which: &str) {
         }
         for n in [0u64, 1, 127, 128, 16383, 16384, 2097151, 2097152, u32::MAX as u64, u64::MAX] {
             out.d(format!("LIB lebw {}", n));
+        }
+        // watto::StringTable: insertion sequences with repeats, the empty string, long strings;
+        // reads at every offset of the resulting bytes and of damaged copies
+        for i in 0..(if th { 3000 } else { 300 }) {
+            let n = rng.range(1, 8);
+            let mut strs: Vec<String> = Vec::new();
+            for _ in 0..n {
+                let s = match rng.below(8) {
+                    0 => String::new(),
+                    1 => "x".repeat(rng.pick(&[126usize, 127, 128, 129, 300, 16383, 16384])),
+                    2 if !strs.is_empty() => rng.pick(&strs).clone(),
+                    _ => rng.pick(&["a", "b", "ab", "é", "日本", "a.b", "\u{0}", " "]).to_string(),
+                };
+                strs.push(s);
+            }
+            out.d(format!("LIB strtab {}", strs.iter().map(|s| hxs(s)).collect::<Vec<_>>().join(" ")));
+            if i % 10 == 0 {
+                let mut t = Vec::new();
+                for s in strs.iter().filter(|s| s.len() < 400) {
+                    leb_push(&mut t, s.len());
+                    t.extend_from_slice(s.as_bytes());
+                }
+                for off in 0..t.len() + 2 {
+                    out.d(format!("LIB strread {} {}", hx(&t), off));
+                }
+                if !t.is_empty() {
+                    let k = rng.below(t.len());
+                    t[k] = rng.pick(&[0xffu8, 0x80, 0x00, 0x7f, 0xc3]);
+                    for off in 0..t.len() + 1 {
+                        out.d(format!("LIB strread {} {}", hx(&t), off));
+                    }
+                }
+                out.d(format!("LIB strread {} {}", hx(&t), usize::MAX));
+            }
         }
     }
     out.count("library_mirror_ops");
